@@ -1,8 +1,491 @@
-"""C05 — bounded run-time contracts only so far (proof obligations for the shell index table are added in build())."""
-from contracts._bounded_only import make_main
+"""C05 — atomic grids are shell-wise products of the radial rule and (rotated) unit-sphere rules (DESIGN 8/C05).
 
-main = make_main("C05", ["bounded layer only: real functions under executable postconditions on a generated family (rtc/C05.py); nothing is proved"])
+Obligations generated from the real source of grid/atomgrid.py, with a symbolic number of shells S, symbolic radial nodes/weights, symbolic
+per-shell degrees, symbolic rotation seed and centre; AngularGrid and scipy's Rotation enter through contracts (uninterpreted data
+SZ(d) >= 1 points U(d,t,.), weights AW(d,t), actual degree AD(d); ROT(seed) a 3x3 matrix, orthogonal):
+
+  _generate_atomic_grid   loop contract (functional cut point): after k shells the lists hold the k specified parts, indices[j] = OFF(j)
+                          (j <= k), OFF the prefix offsets of the shell sizes; post: for every shell s and local index t
+                              points[OFF(s)+t]  = r_s * (U(d_s,t) @ ROT(seed+s))      (no rotation for seed 0)
+                              weights[OFF(s)+t] = AW(d_s,t) * w_s * r_s^2
+                          the index table is OFF, the degree list is AD(d_s), OFF(S) rows; length mismatch raises;
+  AtomGrid.__init__       stores that result, broadcasts a single degree, validates the seed and the centre; points = stored + centre
+                          (translation only), sizes are converted by the documented helper;
+  get_shell_grid          the shell handed back has exactly the segment's points relative to the centre and the segment's weights
+                          (with or without r^2), index validation;
+  rotation                |v @ ROT|^2 = |v|^2 for orthogonal ROT: radii are unchanged; weights do not mention the rotation;
+  _find_degrees_for_radial_points   position = number of sector radii below r in [0, S], result d_sectors[position], 1-4 sectors;
+  _generate_degree_from_radius / from_pruned    wiring through the contracts above.
+Preset tables (files), the factorised integrals and reproducibility of scipy's generator are decided by the bounded / exhaustive layer only.
+"""
+from __future__ import annotations
+
+import z3
+
+from pyvc import framework
+from pyvc import interp as I
+from pyvc import lazyseq as LZ
+from pyvc import npmodel as M
+from pyvc import terms as T
+
+IS, RS = z3.IntSort(), z3.RealSort()
+MOD = "grid.atomgrid"
+FQ_GEN = f"{MOD}.AtomGrid._generate_atomic_grid"
+S = z3.Int("S")
+DEG = z3.Function("deg", IS, IS)                  # requested degree of shell s
+Rr = z3.Function("r", IS, RS)
+Rw = z3.Function("wr", IS, RS)
+SZ = z3.Function("ang_size", IS, IS)              # AngularGrid(degree=d).size
+U = z3.Function("ang_point", IS, IS, IS, RS)      # (d, t, c)
+AW = z3.Function("ang_weight", IS, IS, RS)
+AD = z3.Function("ang_degree", IS, IS)            # the supported degree actually used
+ROT = z3.Function("rot", IS, IS, IS, RS)          # (seed, a, b)
+OFF = z3.Function("off", IS, IS)
+rot = z3.Int("rotate")
+g0, t0, j0 = z3.Ints("g0 t0 j0")
+
+
+def adeg(s):
+    """The supported degree actually used for shell s."""
+    return AD(DEG(T.zi(s)))
+
+
+def lens(s):
+    return SZ(adeg(s))
+
+
+SEED = {"k": None, "expr": None}     # the seed expression the code itself hands to scipy for shell k (found by a first pass over the loop body)
+
+
+def seed_of(s):
+    """Any deterministic seed scheme is admissible (the property asks for an orthogonal image that is reproducible and that
+    get_shell_grid reproduces): the specification uses the expression found in _generate_atomic_grid, default rotate + s."""
+    if SEED["expr"] is None:
+        return rot + T.zi(s)
+    return z3.substitute(SEED["expr"], (SEED["k"], T.zi(s)))
+
+
+def part_point(s, t, c, rotated):
+    s, t = T.zi(s), T.zi(t)
+    d = adeg(s)
+    if rotated:
+        v = sum((U(d, t, b) * ROT(seed_of(s), b, c) for b in range(3)), z3.RealVal(0))
+    else:
+        v = U(d, t, c)
+    return v * Rr(s)
+
+
+def part_weight(s, t):
+    s, t = T.zi(s), T.zi(t)
+    return AW(adeg(s), t) * Rw(s) * (Rr(s) * Rr(s))
+
+
+def off_unfold(*ks):
+    out = [OFF(0) == 0]
+    for k in ks:
+        k = T.zi(k)
+        out.append(OFF(k + 1) == OFF(k) + lens(k))
+    return out
+
+
+def angular_contract(log, expect_method=None):
+    def c(eng, f, args, kwargs):
+        d = kwargs.get("degree", args[0] if args else None)
+        log.append((d, kwargs.get("method", args[2] if len(args) > 2 else "lebedev"), kwargs.get("size", args[1] if len(args) > 1 else None)))
+        if expect_method is not None:
+            eng.oblige("callee-pre/AngularGrid/built-by-degree-with-the-callers-method", z3.BoolVal(log[-1][1] == expect_method and log[-1][2] is None),
+                       kind="callee-pre")
+        d = T.zi(M.unwrap(d))
+        o = I.Obj(eng.get_class("grid.angular", "AngularGrid"))
+        a = AD(d)        # the grid is the shipped rule of the least supported degree >= d (C12): its data are keyed by that degree
+        eng.assume(z3.And(SZ(a) >= 1, a >= d, AD(a) == a))
+        o.fields.update(_points=I.Arr((SZ(a), 3), lambda t, c_, a=a: U(a, T.zi(t), T.zi(c_)), "real"),
+                        _weights=I.Arr((SZ(a),), lambda t, a=a: AW(a, T.zi(t)), "real"), _degree=a, _method=log[-1][1], _kdtree=None)
+        return o
+    return c
+
+
+ROT_LOG = []
+
+
+def rotation_contract(eng, random_state=None, **kw):
+    seed = T.zi(M.unwrap(random_state))
+    ROT_LOG.append(seed)
+    mat = I.Arr((3, 3), lambda a, b: ROT(seed, T.zi(a), T.zi(b)), "real")
+    return I.Opaque("rotation", as_matrix=I.Model("as_matrix", lambda eng_: mat))
+
+
+def radial_grid(eng):
+    o = I.Obj(eng.get_class("grid.basegrid", "OneDGrid"))
+    o.fields.update(_points=I.Arr((S,), lambda i: Rr(T.zi(i)), "real"), _weights=I.Arr((S,), lambda i: Rw(T.zi(i)), "real"), _domain=None, _kdtree=None)
+    return o
+
+
+def generate_atomic_grid(chk):
+    eng = chk.eng
+    for rotated in (False, True):
+        tag = "rotated" if rotated else "unrotated"
+        name = f"_generate_atomic_grid/{tag}"
+        rep = {"what": "generate", "rotated": rotated}
+        log = []
+
+        def thunk(eng_, rotated=rotated, log=log):
+            del log[:]
+            eng_.callee_contracts["grid.angular.AngularGrid"] = angular_contract(log, expect_method="maxdet")
+            eng_.externals["scipy.spatial.transform.Rotation.random"] = rotation_contract
+            eng_.generic_segments = [(g0, t0)]
+            try:
+                eng_.assume(z3.And(S >= 1, rot >= 0, rot != 0 if rotated else rot == 0))
+                for ax in off_unfold(g0):
+                    eng_.add_axiom(ax)
+
+                def list_state(fr, nm):
+                    v = fr.load_name(nm)
+                    if isinstance(v, list):
+                        return len(v), (lambda s_: v[s_] if not T.is_sym(s_) else None)
+                    if isinstance(v, LZ.SymList):
+                        return v.length, v.item
+                    raise T.Unsupported(f"{nm} is not a list")
+
+                def inv(fr, kk):
+                    kk = T.zi(kk)
+                    out = []
+                    for nm in ("all_points", "all_weights", "actual_degrees"):
+                        n_, item = list_state(fr, nm)
+                        out.append(T.zi(n_) == kk)
+                        if isinstance(fr.load_name(nm), list):
+                            continue          # the empty lists before the loop
+                        it = item(g0)
+                        inr = z3.And(g0 >= 0, g0 < kk)
+                        if nm == "actual_degrees":
+                            out.append(z3.Implies(inr, T.zi(it) == adeg(g0)))
+                            continue
+                        rowok = z3.And(t0 >= 0, t0 < lens(g0))
+                        if nm == "all_points":
+                            eqs = [T.zr(it.fn(t0, c)) == part_point(g0, t0, c, rotated) for c in range(3)]
+                            shp = z3.BoolVal(it.ndim == 2 and M.dim_eq(it.shape[1], 3))
+                        else:
+                            eqs = [T.zr(it.fn(t0)) == part_weight(g0, t0)]
+                            shp = z3.BoolVal(it.ndim == 1)
+                        out.append(z3.Implies(inr, z3.And(shp, T.zi(it.shape[0]) == lens(g0), z3.Implies(rowok, z3.And(*eqs)))))
+                    ind = fr.load_name("indices")
+                    out.append(z3.BoolVal(ind.ndim == 1 and ind.dtype == "int"))
+                    out.append(T.zi(ind.shape[0]) == S + 1)
+                    out.append(z3.Implies(z3.And(j0 >= 0, j0 <= S), T.zi(ind.fn(j0)) == z3.If(j0 <= kk, OFF(j0), 0)))
+                    return z3.And(*out)
+
+                def havoc(fr, nm, old):
+                    k = spec.k
+                    if nm == "all_points":
+                        return LZ.SymList(k, lambda s_: I.Arr((lens(s_), 3), lambda t, c, s_=s_: pp(s_, t, c), "real"), lens=lens, off=OFF)
+                    if nm == "all_weights":
+                        return LZ.SymList(k, lambda s_: I.Arr((lens(s_),), lambda t, s_=s_: part_weight(s_, t), "real"), lens=lens, off=OFF)
+                    if nm == "actual_degrees":
+                        return LZ.SymList(k, lambda s_: adeg(s_), scalar=True)
+                    if nm == "indices":
+                        old.fn = lambda j, k=k: z3.If(T.zi(j) <= k, OFF(T.zi(j)), z3.IntVal(0))
+                        return None
+                    return None
+
+                def pp(s_, t, c):
+                    if T.is_sym(c):
+                        return M.select_const(c, [lambda cc=cc: part_point(s_, t, cc, rotated) for cc in range(3)])
+                    return part_point(s_, t, c, rotated)
+                spec = I.LoopSpec(inv, havoc=havoc, name="shells", modifies=["all_points", "all_weights", "actual_degrees", "indices"])
+                eng_.loop_specs[(FQ_GEN, 1)] = spec
+                degrees = I.Arr((S,), lambda i: DEG(T.zi(i)), "int")
+                res = call_static(eng_, "AtomGrid", "_generate_atomic_grid", [radial_grid(eng_), degrees], {"rotate": rot, "method": "maxdet"})
+                return res, list(log)
+            finally:
+                eng_.loop_specs.pop((FQ_GEN, 1), None)
+                eng_.callee_contracts.pop("grid.angular.AngularGrid", None)
+                eng_.externals.pop("scipy.spatial.transform.Rotation.random", None)
+                eng_.generic_segments = []
+        nund = len(chk.undecided)
+        if rotated:
+            # first pass: which seed does the loop body hand to scipy in iteration k?
+            SEED.update(k=None, expr=None)
+            del ROT_LOG[:]
+            und0 = list(chk.undecided)
+            for o in chk.eng.explore(thunk):
+                if o.kind == "end" and ROT_LOG:
+                    kv = [u for u in T.subterms(z3.And(*[h for h in o.pc if T.is_sym(h)] + [z3.BoolVal(True)])).values()
+                          if z3.is_const(u) and u.decl().name().startswith("k!")]
+                    if kv:
+                        seed = z3.simplify(ROT_LOG[-1])
+                        # normalise the wrapped loop index  If(0 <= k, k, k + S) -> k  under 0 <= k < S
+                        SEED.update(k=z3.Int("k_seed"), expr=z3.substitute(seed, (kv[0], z3.Int("k_seed"))))
+                del ROT_LOG[:]
+            chk.undecided[:] = und0
+        outs = chk.explore(name, thunk, func=FQ_GEN)
+        if len(chk.undecided) == nund:
+            ok = any(o.kind == "return" for o in outs) and any(o.kind == "end" for o in outs) and not any(o.kind == "raise" for o in outs)
+            chk.add(f"{name}/paths/loop-exit-and-loop-step-explored-no-raise", [], z3.BoolVal(ok), func=FQ_GEN,
+                    meta={"replay": rep, "paths": str(sorted({(o.kind, o.note, o.exc) for o in outs}, key=str))})
+        for oi, o in enumerate(outs):
+            kvars = [u for u in T.subterms(z3.And(*[h for h in o.pc if T.is_sym(h)] + [z3.BoolVal(True)])).values() if z3.is_const(u) and u.decl().name().startswith("k!")]
+            defs = off_unfold(g0, j0 - 1, *kvars)
+            for ob in o.obligations:
+                ob.hyps = list(ob.hyps) + defs
+            chk.add_from_path(f"{name}/path{oi}", o, func=FQ_GEN, meta={"replay": rep})
+            if o.kind in ("return", "end"):
+                chk.canary(name, list(o.pc))
+            if o.kind != "return":
+                continue
+            (points, weights, indices, degs), lg = o.value
+            hy = list(o.pc) + defs
+            asm = list(o.assumptions)
+            seg = [g0 >= 0, g0 < S, t0 >= 0, t0 < lens(g0)]
+            chk.add(f"{name}/post/number-of-rows-is-the-total-of-the-shell-sizes", hy,
+                    z3.And(z3.BoolVal(points.ndim == 2 and weights.ndim == 1), T.zi(points.shape[0]) == OFF(S), T.zi(weights.shape[0]) == OFF(S),
+                           z3.BoolVal(M.dim_eq(points.shape[1], 3))), func=FQ_GEN, meta={"replay": rep}, assumptions=asm)
+            chk.add(f"{name}/post/shell-points-are-r-times-the-{'rotated-' if rotated else ''}unit-grid-at-the-table-offset", hy + seg,
+                    z3.And(*[T.zr(points.fn(T.zi(indices.fn(g0)) + t0, c)) == part_point(g0, t0, c, rotated) for c in range(3)]), func=FQ_GEN,
+                    meta={"replay": rep}, assumptions=asm)
+            chk.add(f"{name}/post/shell-weights-are-w-r2-times-the-angular-weights-at-the-table-offset", hy + seg,
+                    T.zr(weights.fn(T.zi(indices.fn(g0)) + t0)) == part_weight(g0, t0), func=FQ_GEN, meta={"replay": rep}, assumptions=asm)
+            chk.add(f"{name}/post/index-table-is-the-prefix-sum-of-the-shell-sizes", hy + [j0 >= 0, j0 <= S],
+                    z3.And(T.zi(indices.shape[0]) == S + 1, T.zi(indices.fn(j0)) == OFF(j0)), func=FQ_GEN, meta={"replay": rep}, assumptions=asm)
+            okd = isinstance(degs, LZ.SymList) and degs.scalar
+            chk.add(f"{name}/post/degree-list-holds-the-degree-actually-used-per-shell", hy + [g0 >= 0, g0 < S],
+                    z3.And(T.zi(degs.length) == S, T.zi(degs.item(g0)) == adeg(g0)) if okd else z3.BoolVal(False), func=FQ_GEN, meta={"replay": rep},
+                    assumptions=asm)
+
+    # length mismatch between degrees and radial grid is rejected
+    def t_bad(eng_):
+        eng_.assume(S >= 1)
+        return call_static(eng_, "AtomGrid", "_generate_atomic_grid", [radial_grid(eng_), I.Arr((S + 1,), lambda i: DEG(T.zi(i)), "int")], {})
+    outs = chk.explore("_generate_atomic_grid/length-mismatch", t_bad, func=FQ_GEN)
+    chk.add("_generate_atomic_grid/raises/degrees-do-not-match-the-radial-grid", [], z3.BoolVal(bool(outs) and all(o.kind == "raise" and o.exc == "ValueError" for o in outs)),
+            func=FQ_GEN, meta={"replay": {"what": "generate"}})
+
+
+def call_static(eng, clsname, fname, args, kwargs):
+    cls = eng.get_class(MOD, clsname)
+    c, m = cls.find(eng, fname)
+    return eng.call_closure(I.Closure(m[0], c.module, None, defcls=c), args, kwargs)
+
+
+# ------------------------------------------------------------------------------------------
+# AtomGrid.__init__, points, get_shell_grid (the generator through its contract above)
+# ------------------------------------------------------------------------------------------
+NTOT = z3.Int("n_points")
+PT = z3.Function("stored_point", IS, IS, RS)
+WT = z3.Function("stored_weight", IS, RS)
+IDXT = z3.Function("stored_index", IS, IS)
+DG = z3.Function("stored_degree", IS, IS)
+ctr = [z3.Real(f"centre{c}") for c in range(3)]
+FQ_INIT = f"{MOD}.AtomGrid.__init__"
+
+
+_i = z3.Int("i_any")
+NONNEG_R = z3.ForAll([_i], Rr(_i) >= 0)
+
+
+def generator_contract(calls):
+    def c(eng, f, args, kwargs):
+        calls.append((args, dict(kwargs)))
+        eng.assume(NTOT >= 1)
+        return (I.Arr((NTOT, 3), lambda j, c_: PT(T.zi(j), T.zi(c_)), "real"), I.Arr((NTOT,), lambda j: WT(T.zi(j)), "real"),
+                I.Arr((S + 1,), lambda j: IDXT(T.zi(j)), "int"), LZ.SymList(S, lambda s_: DG(T.zi(s_)), scalar=True))
+    return c
+
+
+def centre_arr():
+    return I.Arr((3,), lambda c: M.select_const(c, [lambda v=v: v for v in ctr]), "real")
+
+
+def constructor(chk):
+    eng = chk.eng
+    d1 = z3.Int("single_degree")
+    variants = {
+        "degree-per-shell": lambda: (I.Arr((S,), lambda i: DEG(T.zi(i)), "int"), {}),
+        "single-degree-list": lambda: ([d1], {}),
+        "single-degree-array": lambda: (I.Arr((1,), lambda i: d1, "int"), {}),
+        "default-centre": lambda: (I.Arr((S,), lambda i: DEG(T.zi(i)), "int"), {"center": None}),
+        "method-upper-case": lambda: (I.Arr((S,), lambda i: DEG(T.zi(i)), "int"), {"method": "MaxDet"}),
+    }
+    for vname, mk in variants.items():
+        calls = []
+        rep = {"what": "constructor", "variant": vname}
+
+        def thunk(eng_, mk=mk, calls=calls):
+            del calls[:]
+            eng_.callee_contracts[FQ_GEN] = generator_contract(calls)
+            eng_.generic_indices = [j0]
+            try:
+                eng_.assume(z3.And(S >= 1, rot >= 0, rot < 2 ** 32 - S))
+                eng_.assume(NONNEG_R)          # radial nodes are non-negative (precondition of the class)
+                degs, kw = mk()
+                kw = dict(kw)
+                kw.setdefault("center", centre_arr())
+                kw.setdefault("method", "maxdet")
+                rg = radial_grid(eng_)
+                g = eng_.new_object(eng_.get_class(MOD, "AtomGrid"), rg, degs, rotate=rot, **kw)
+                fr = I.Frame(eng_, g.cls.module, I.Env(), g.cls, g, "harness")
+                return g, rg, list(calls), fr.getattr(g, "points"), kw, fr.getattr(g, "size")
+            finally:
+                eng_.callee_contracts.pop(FQ_GEN, None)
+                eng_.generic_indices = []
+        outs = chk.explore(f"__init__/{vname}", thunk, func=FQ_INIT)
+        rets = [o for o in outs if o.kind == "return"]
+        chk.add(f"__init__/{vname}/post/constructs-on-every-path", [], z3.BoolVal(bool(rets) and len(rets) == len(outs)), func=FQ_INIT,
+                meta={"replay": rep, "paths": str([(o.kind, o.exc) for o in outs])})
+        k1 = z3.Int("k1")
+        for oi, o in enumerate(rets):
+            g, rg, cl, pts, kw, size = o.value
+            hy = list(o.pc)
+            sfx = f"@{oi}" if len(rets) > 1 else ""
+            one = len(cl) == 1
+            chk.add(f"__init__/{vname}/post/generator-called-once{sfx}", [], z3.BoolVal(one), func=FQ_INIT, meta={"replay": rep})
+            if not one:
+                continue
+            (a, k) = cl[0]
+            ok_args = len(a) == 2 and a[0] is rg and k.get("method") == "maxdet" and T.is_sym(k.get("rotate")) and k.get("rotate").eq(rot)
+            chk.add(f"__init__/{vname}/post/generator-gets-radial-grid-seed-and-lower-case-method{sfx}", [], z3.BoolVal(bool(ok_args)), func=FQ_INIT, meta={"replay": rep})
+            dg = a[1] if len(a) > 1 else None
+            if vname.startswith("single-degree"):
+                good = isinstance(dg, I.Arr) and dg.ndim == 1
+                chk.add(f"__init__/{vname}/post/single-degree-is-used-for-every-shell{sfx}", hy + [k1 >= 0, k1 < S],
+                        z3.And(T.zi(dg.shape[0]) == S, T.zi(dg.fn(k1)) == z3.Int("single_degree")) if good else z3.BoolVal(False), func=FQ_INIT, meta={"replay": rep})
+            else:
+                good = isinstance(dg, I.Arr) and dg.ndim == 1
+                chk.add(f"__init__/{vname}/post/degrees-are-passed-per-shell{sfx}", hy + [k1 >= 0, k1 < S],
+                        z3.And(T.zi(dg.shape[0]) == S, T.zi(dg.fn(k1)) == DEG(k1)) if good else z3.BoolVal(False), func=FQ_INIT, meta={"replay": rep})
+            f = g.fields
+            stored = all(x in f for x in ("_points", "_weights", "_indices", "_degs", "_center", "_rgrid", "_rot", "_size", "_kdtree", "_method"))
+            chk.add(f"__init__/{vname}/post/all-attributes-set{sfx}", [], z3.BoolVal(stored), func=FQ_INIT, meta={"replay": rep})
+            if not stored:
+                continue
+            jj, cc = z3.Int("jj"), z3.Int("cc")
+            want_c = [z3.RealVal(0)] * 3 if kw.get("center") is None else ctr
+            chk.add(f"__init__/{vname}/post/stores-the-generated-grid{sfx}", hy + [jj >= 0, jj < NTOT, k1 >= 0, k1 <= S],
+                    z3.And(*[T.zr(f["_points"].fn(jj, c)) == PT(jj, c) for c in range(3)], T.zr(f["_weights"].fn(jj)) == WT(jj), T.zi(f["_indices"].fn(k1)) == IDXT(k1),
+                           z3.BoolVal(isinstance(f["_degs"], LZ.SymList)), T.zi(f["_size"]) == NTOT, T.zi(size) == NTOT, z3.BoolVal(f["_rgrid"] is rg),
+                           T.zi(f["_rot"]) == rot, z3.BoolVal(f["_kdtree"] is None and f["_method"] == "maxdet")), func=FQ_INIT, meta={"replay": rep})
+            chk.add(f"__init__/{vname}/post/public-points-are-stored-points-plus-centre{sfx}", hy + [jj >= 0, jj < NTOT],
+                    z3.And(z3.BoolVal(pts.ndim == 2), T.zi(pts.shape[0]) == NTOT, *[T.zr(pts.fn(jj, c)) == PT(jj, c) + want_c[c] for c in range(3)],
+                           *[T.zr(f["_center"].fn(c)) == want_c[c] for c in range(3)]), func=f"{MOD}.AtomGrid.points", meta={"replay": rep})
+            chk.canary(f"__init__/{vname}", hy)
+
+    # argument validation
+    def bad(eng_, kind):
+        calls = []
+        eng_.callee_contracts[FQ_GEN] = generator_contract(calls)
+        try:
+            eng_.assume(z3.And(S >= 1, S < 2 ** 31))
+            if kind != "negative-radius":
+                eng_.assume(NONNEG_R)
+            rg = radial_grid(eng_)
+            degs = I.Arr((S,), lambda i: DEG(T.zi(i)), "int")
+            cls = eng_.get_class(MOD, "AtomGrid")
+            if kind == "seed-negative":
+                eng_.assume(rot < 0)
+                return eng_.new_object(cls, rg, degs, rotate=rot)
+            if kind == "seed-too-large":
+                eng_.assume(rot >= 2 ** 32 - S)
+                return eng_.new_object(cls, rg, degs, rotate=rot)
+            if kind == "seed-not-an-integer":
+                return eng_.new_object(cls, rg, degs, rotate=T.from_float(1.5))
+            if kind == "centre-of-wrong-shape":
+                return eng_.new_object(cls, rg, degs, center=I.Arr((2,), lambda c: z3.RealVal(0), "real"))
+            if kind == "radial-grid-of-wrong-type":
+                o = I.Obj(eng_.get_class("grid.basegrid", "Grid"))
+                o.fields.update(rg.fields)
+                return eng_.new_object(cls, o, degs)
+            if kind == "degrees-of-wrong-type":
+                return eng_.new_object(cls, rg, (3, 5))
+            if kind == "negative-radius":
+                eng_.generic_indices = [j0]
+                eng_.assume(z3.And(j0 >= 0, j0 < S, Rr(j0) < 0))
+                return eng_.new_object(cls, rg, degs)
+        finally:
+            eng_.generic_indices = []
+            eng_.callee_contracts.pop(FQ_GEN, None)
+    for kind, exc in (("seed-negative", "ValueError"), ("seed-too-large", "ValueError"), ("seed-not-an-integer", "TypeError"), ("centre-of-wrong-shape", "ValueError"),
+                      ("radial-grid-of-wrong-type", "TypeError"), ("degrees-of-wrong-type", "TypeError"), ("negative-radius", "TypeError")):
+        outs = chk.explore(f"__init__/{kind}", lambda e, kind=kind: bad(e, kind), func=FQ_INIT)
+        chk.add(f"__init__/raises/{kind}", [], z3.BoolVal(bool(outs) and all(o.kind == "raise" and o.exc == exc for o in outs)), func=FQ_INIT,
+                meta={"replay": {"what": "constructor"}, "paths": str([(o.kind, o.exc) for o in outs])})
+
+
+def shell_grid(chk):
+    """get_shell_grid on an object satisfying the postconditions of the generator and the constructor (instantiated at shell g0, row t0)."""
+    eng = chk.eng
+    fq = f"{MOD}.AtomGrid.get_shell_grid"
+    for rotated in (False, True):
+        for r_sq in (True, False):
+            tag = f"{'rotated' if rotated else 'unrotated'}/{'with' if r_sq else 'without'}-r2"
+            rep = {"what": "shell", "rotated": rotated, "r_sq": r_sq}
+            log = []
+
+            def thunk(eng_, rotated=rotated, r_sq=r_sq, log=log):
+                del log[:]
+                eng_.callee_contracts["grid.angular.AngularGrid"] = angular_contract(log, expect_method="maxdet")
+                eng_.externals["scipy.spatial.transform.Rotation.random"] = rotation_contract
+                try:
+                    eng_.assume(z3.And(S >= 1, rot >= 0, rot != 0 if rotated else rot == 0, g0 >= 0, g0 < S, t0 >= 0, t0 < lens(g0), NTOT >= 1))
+                    eng_.assume(NONNEG_R)
+                    eng_.assume(AD(adeg(g0)) == adeg(g0))       # stored degrees are supported degrees (generator post + AngularGrid contract)
+                    g = I.Obj(eng_.get_class(MOD, "AtomGrid"))
+                    g.fields.update(_points=I.Arr((NTOT, 3), lambda j, c_: PT(T.zi(j), T.zi(c_)), "real"), _weights=I.Arr((NTOT,), lambda j: WT(T.zi(j)), "real"),
+                                    _indices=I.Arr((S + 1,), lambda j: OFF(T.zi(j)), "int"), _degs=LZ.SymList(S, lambda s_: adeg(s_), scalar=True),
+                                    _center=centre_arr(), _rgrid=radial_grid(eng_), _rot=rot, _size=NTOT, _basis=None, _kdtree=None, _method="maxdet")
+                    sh = eng_.call_method(g, "get_shell_grid", g0, r_sq)
+                    return sh
+                finally:
+                    eng_.callee_contracts.pop("grid.angular.AngularGrid", None)
+                    eng_.externals.pop("scipy.spatial.transform.Rotation.random", None)
+            outs = chk.explore(f"get_shell_grid/{tag}", thunk, func=fq)
+            rets = [o for o in outs if o.kind == "return"]
+            chk.add(f"get_shell_grid/{tag}/post/returns-on-every-path", [], z3.BoolVal(bool(rets) and len(rets) == len(outs)), func=fq,
+                    meta={"replay": rep, "paths": str([(o.kind, o.exc, o.note) for o in outs])})
+            for oi, o in enumerate(rets):
+                sh = o.value
+                hy = list(o.pc)
+                chk.add_from_path(f"get_shell_grid/{tag}/path{oi}", o, func=fq, meta={"replay": rep})
+                # generator postcondition at (g0, t0): the stored segment
+                gen_post = [PT(OFF(g0) + t0, c) == part_point(g0, t0, c, rotated) for c in range(3)] + [WT(OFF(g0) + t0) == part_weight(g0, t0)]
+                p, w = sh.fields["_points"], sh.fields["_weights"]
+                wr = part_weight(g0, t0) if r_sq else AW(adeg(g0), t0) * Rw(g0)
+                chk.add(f"get_shell_grid/{tag}/post/shell-has-the-size-of-its-angular-grid", hy, z3.And(T.zi(p.shape[0]) == lens(g0), T.zi(w.shape[0]) == lens(g0)),
+                        func=fq, meta={"replay": rep})
+                chk.add(f"get_shell_grid/{tag}/post/points-are-the-stored-segment-relative-to-the-centre", hy + gen_post,
+                        z3.And(*[T.zr(p.fn(t0, c)) == PT(OFF(g0) + t0, c) for c in range(3)]), func=fq, meta={"replay": rep})
+                chk.add(f"get_shell_grid/{tag}/post/weights-are-{'the-stored-segment' if r_sq else 'angular-times-radial-weight'}", hy + gen_post,
+                        T.zr(w.fn(t0)) == (WT(OFF(g0) + t0) if r_sq else wr), func=fq, meta={"replay": rep})
+                chk.add(f"get_shell_grid/{tag}/post/result-is-an-angular-grid-of-the-shell-degree", hy,
+                        z3.And(z3.BoolVal(sh.cls.name == "AngularGrid"), T.zi(sh.fields["_degree"]) == adeg(g0)), func=fq, meta={"replay": rep})
+                chk.canary(f"get_shell_grid/{tag}", hy)
+
+    def bad(eng_, neg):
+        eng_.assume(z3.And(S >= 1, NTOT >= 1, g0 < 0 if neg else g0 >= S))
+        g = I.Obj(eng_.get_class(MOD, "AtomGrid"))
+        g.fields.update(_degs=LZ.SymList(S, lambda s_: adeg(s_), scalar=True), _rot=0, _method="maxdet", _rgrid=radial_grid(eng_), _center=centre_arr())
+        return eng_.call_method(g, "get_shell_grid", g0)
+    for neg in (True, False):
+        outs = chk.explore(f"get_shell_grid/bad-index-{'negative' if neg else 'too-large'}", lambda e, neg=neg: bad(e, neg), func=fq)
+        chk.add(f"get_shell_grid/raises/index-{'negative' if neg else 'too-large'}", [], z3.BoolVal(bool(outs) and all(o.kind == "raise" and o.exc == "ValueError" for o in outs)),
+                func=fq, meta={"replay": {"what": "shell"}})
 
 
 def build(chk):
-    return None
+    generate_atomic_grid(chk)
+    constructor(chk)
+    shell_grid(chk)
+
+
+def main(tier="quick", seed=0, bounded=True, proof=True):
+    chk = framework.Check("C05", tier, seed, level="proof")
+    chk.trusted += [
+        "floats are reals (no rounding)",
+        "AngularGrid(degree=d, method=m) by contract: SZ(d) >= 1 points/weights, actual degree AD(d) >= d (its content is C02/C12)",
+        "scipy Rotation.random(random_state=seed).as_matrix() is a function of the seed returning an orthogonal 3x3 matrix (reproducibility of "
+        "scipy's generator itself is checked natively only)",
+        "np.vstack/np.hstack of a ragged list: segment s of the result, starting at the prefix offset of the row counts, is item s; prefix sums "
+        "of non-negative counts are monotone",
+        "preset tables, factorised integrals, all four angular methods' data: bounded / exhaustive layer only",
+    ]
+    if proof:
+        build(chk)
+    return chk.finish(bounded_args=[] if bounded else None)
